@@ -6,11 +6,28 @@ from astu import C, ctxt, gt_pair, eq_const, reach, reach_txt, ctext, strip, str
 from vlib.core import ob
 
 
+GETTERS = {}
+
+
+def trivial_getters(fns):
+    """pattern -> field name for member functions whose whole body is `return field_;` (a call of one reads that field)"""
+    res = {}
+    for fn in fns.values():
+        b = stmts_of(fn.get("body"))
+        if len(b) == 1 and b[0].get("k") == "Return" and not fn.get("params"):
+            r = strip_all(b[0].get("e") or {})
+            if isinstance(r, dict) and r.get("k") == "Member" and r.get("isfield") and strip(r.get("b") or {}).get("k") == "This":
+                res[fn["pat"]] = r["f"]
+    return res
+
+
 def ntxt(e):
-    """txt() with moves/forwards stripped everywhere"""
+    """txt() with moves/forwards stripped everywhere; a call of a trivial getter reads as the field it returns"""
     def clean(n):
         if isinstance(n, dict):
             n = strip_all(n) if n.get("k") in ("Call", "Cast", "Construct") else n
+            if isinstance(n, dict) and n.get("k") == "Call" and n.get("cpat") in GETTERS and not n.get("args"):
+                n = {"k": "Member", "b": n.get("obj") if n.get("obj") is not None else {"k": "This"}, "f": GETTERS[n["cpat"]], "isfield": True, "t": n.get("t")}
             if isinstance(n, dict):
                 return {k: clean(v) for k, v in n.items()}
             return n
@@ -62,6 +79,8 @@ def overload_twins(facts, fams=None):
     from vlib.core import VERIF
     armed = set(json.load(open(os.path.join(VERIF, "spec", "twins_armed.json")))["overloads"])
     fns = functions_by(facts)
+    GETTERS.clear()
+    GETTERS.update(trivial_getters(fns))
     groups = {}
     for pat, fn in fns.items():
         if fams and not any(pat.startswith(f) for f in fams):
